@@ -63,7 +63,10 @@ type CallPre struct {
 }
 
 type Hint struct {
-	Kind string // unfold | lemma | assume
+	Writer string // established: the only function that writes Field
+	Field  string // established: Type.field of a sync/atomic.Value cell
+	Label  string
+	Kind string // unfold | lemma | assume | established
 	Loop int    // -1: function entry, else loop ordinal (assumed at the header)
 	At   string // "" | "ret"
 	E    Expr
@@ -369,6 +372,17 @@ func (cs *Contracts) LoadContractFile(path, pkg string) error {
 				Name string
 				E    Expr
 			}{strings.TrimSpace(rest[:i]), e})
+		case "established":
+			// established <writer func> <Type.field> @label <expr>
+			fs := strings.SplitN(rest, " ", 3)
+			if len(fs) < 3 {
+				return fail("established needs writer, field and expression")
+			}
+			c, err := mkClause(fs[2])
+			if err != nil {
+				return err
+			}
+			cur.Hints = append(cur.Hints, Hint{Kind: "established", Loop: -1, Writer: fs[0], Field: fs[1], Label: c.Label, E: c.E, Src: fs[2]})
 		case "unfold", "use", "assume":
 			at := ""
 			if strings.HasPrefix(rest, "@ret ") {
